@@ -3,7 +3,7 @@ CONSTANTS
   MaxSteps <- NoBound
   Kinds = {"select", "pollfix", "epoll"}
   RegObj = {1, 2, 3}
-  IntCapable = {3}
+  IntCapable = {}
   Monitor = TRUE
 INVARIANT TypeOK
 INVARIANT Conforms
